@@ -8,6 +8,7 @@ use super::{
 };
 
 pub use super::hint::verif_hooks::hint_arith;
+pub use super::hint::verif_hooks::hint_round_ops;
 
 /// The counts of an [`Outline`] that determine its memory requirements.
 #[derive(Copy, Clone, Debug, Default, PartialEq, Eq)]
